@@ -202,13 +202,14 @@ def unit_modes(u, rec):
             rec.close(np.max(np.abs(dv - want)), 1e3 * EPS * (2 * np.pi / L) * N, f"C04/derivative/{indexing}",
                       "derivative(indexing) is not the analytic gradient with channel c = d/dx_c", D=D, N=N, k=k)
     # low-pass masks with this indexing
-    for cutoff in range(0, N // 2 + 2):
+    # integer cutoffs and the fractional ones the dealiasing rule produces (fraction*(N//2) - 1 is rarely an integer)
+    for cutoff in [c + f for c in range(0, N // 2 + 2) for f in (0.0, 1.0 / 3.0, 0.5)] + [-1.0, -1.0 / 3.0]:
         for sep in (True, False):
             m = np.asarray(ex.spectral.low_pass_filter_mask(D, N, cutoff=cutoff, axis_separate=sep, indexing=indexing))
             if not rec.check(m.shape == (1,) + wshape, f"C04/low_pass/shape/{indexing}", "mask shape", D=D, N=N, got=list(m.shape)):
                 continue
             kabs = np.abs(WN)
-            want = np.all(kabs <= cutoff, axis=0) if sep else (np.sum(WN.astype(float) ** 2, axis=0) <= cutoff**2 + 1e-9)
+            want = np.all(kabs <= cutoff, axis=0) if sep else ((np.sqrt(np.sum(WN.astype(float) ** 2, axis=0)) <= cutoff + 1e-12) if cutoff >= 0 else np.zeros(wshape, dtype=bool))
             rec.count(states=1, transitions=1, traces=1)
             rec.check(np.array_equal(m[0], want), f"C04/low_pass/{'box' if sep else 'sphere'}/{indexing}",
                       "low-pass mask is not {|k_d|<=c for all d} / {|k|_2<=c}", D=D, N=N, cutoff=cutoff)
